@@ -188,7 +188,7 @@ Print Assumptions C12_entry_points_meet_spec_as_is.
 (** ... and INSIDE the guards everything holds except the clause the finding breaks
     ([xwaiver]: C12-F1 waives only the WWW-Authenticate clause — status 401 / override, no
     success status, details only when verbose still hold; C12-F2 and C12-F4 waive only
-    "the status (and Location) of its kind", and admit a dropped connection) *)
+    "the status (and Location) of its kind", and allow for a dropped connection) *)
 Theorem C12_entry_points_inside_guards : forall fx file c o nv sc,
   oracle_ok nv o = true ->
   (forall proxy, match sc with XProxy _ => proxy = true | _ => True end ->
